@@ -125,66 +125,6 @@ pub(crate) fn c15_trace_flags_roundtrip() {
     kani::cover!(true);
 }
 
-fn any_ascii_55() -> [u8; 55] {
-    let buf: [u8; 55] = kani::any();
-    let mut i = 0;
-    while i < 55 {
-        kani::assume(buf[i] < 128);
-        i += 1;
-    }
-    buf
-}
-
-/// Traceparent::try_from_str on EVERY 55-byte ASCII text: no panic; accepted => version `00`, `-` at 2/35/52,
-/// hex digits everywhere else.
-#[cfg_attr(kani, kani::proof)]
-#[cfg_attr(kani, kani::unwind(57))]
-pub(crate) fn c15_traceparent_parse_shape() {
-    let buf = any_ascii_55();
-    let s = core::str::from_utf8(&buf).unwrap();
-    if Traceparent::try_from_str(s).is_ok() {
-        assert!(buf[0] == b'0' && buf[1] == b'0');
-        assert!(buf[2] == b'-' && buf[35] == b'-' && buf[52] == b'-');
-        let mut i = 3;
-        while i < 55 {
-            if i != 35 && i != 52 {
-                assert!(is_hex(buf[i]));
-            }
-            i += 1;
-        }
-    }
-    kani::cover!(true);
-}
-
-/// ... and the ids / flags an accepted traceparent carries are the ones the text denotes (lower-cased).
-#[cfg_attr(kani, kani::proof)]
-#[cfg_attr(kani, kani::unwind(57))]
-pub(crate) fn c15_traceparent_parse_values() {
-    let buf = any_ascii_55();
-    let s = core::str::from_utf8(&buf).unwrap();
-    if let Ok(tp) = Traceparent::try_from_str(s) {
-        if let Some(t) = tp.trace_id() {
-            let out = t.to_hex();
-            let mut i = 0;
-            while i < 32 {
-                assert!(out[i] == lower(buf[3 + i]));
-                i += 1;
-            }
-        }
-        if let Some(sid) = tp.span_id() {
-            let out = sid.to_hex();
-            let mut i = 0;
-            while i < 16 {
-                assert!(out[i] == lower(buf[36 + i]));
-                i += 1;
-            }
-        }
-        let fl = tp.trace_flags().to_hex();
-        assert!(fl[0] == lower(buf[53]) && fl[1] == lower(buf[54]));
-    }
-    kani::cover!(true);
-}
-
 /// TraceFlags::try_from_hex_slice is total on EVERY slice of length 0..=3 and accepts exactly two hex digits.
 #[cfg_attr(kani, kani::proof)]
 pub(crate) fn c15_trace_flags_parse_total() {
